@@ -1667,4 +1667,124 @@ theorem memo_refines_spec {μ} (I : MemoImpl μ) (valid : List Int → μ → Pr
 
 end memo
 
+/-! ### session 3: items moved from "correspondence only" into the proved part —
+element-wise `before` / `after` lookups for a query array as long as the time array, negative and
+out-of-range integer keys on series and event collections -/
+
+theorem mem_whereIdx2 (p : Int → Int → Bool) (ts tq : List Int) (i : Nat) :
+    i ∈ whereIdx2 p ts tq ↔ i < ts.length ∧ p (ts.getD i 0) (tq.getD i 0) = true := by
+  simp [whereIdx2, List.mem_filter, List.mem_range]
+
+theorem whereIdx2_sorted (p : Int → Int → Bool) (ts tq : List Int) : (whereIdx2 p ts tq).Pairwise (· < ·) :=
+  List.Pairwise.filter _ List.pairwise_lt_range
+
+/-- element-wise `mode='before'` (query array `tq` as long as `ts`; the mask is `ts[i] ≤ tq[i]`):
+empty iff no position qualifies; otherwise a qualifying position holding the latest qualifying time,
+and the first such position -/
+theorem before2_spec (ts tq : List Int) :
+    (indexBefore2 ts tq = none ↔ ∀ i, i < ts.length → tq.getD i 0 < ts.getD i 0) ∧
+    (∀ j, indexBefore2 ts tq = some j →
+      j < ts.length ∧ ts.getD j 0 ≤ tq.getD j 0 ∧
+      (∀ i, i < ts.length → ts.getD i 0 ≤ tq.getD i 0 → ts.getD i 0 ≤ ts.getD j 0) ∧
+      (∀ i, i < j → ts.getD i 0 ≤ tq.getD i 0 → ts.getD i 0 < ts.getD j 0)) := by
+  unfold indexBefore2
+  constructor
+  · rw [pickMax_none, List.eq_nil_iff_forall_not_mem]
+    constructor
+    · intro h i hi
+      by_contra hc
+      exact h i ((mem_whereIdx2 _ _ _ _).mpr ⟨hi, decide_eq_true (by omega)⟩)
+    · intro h i hi
+      obtain ⟨h1, h2⟩ := (mem_whereIdx2 _ _ _ _).mp hi
+      have := h i h1
+      have h2' : ts.getD i 0 ≤ tq.getD i 0 := of_decide_eq_true h2
+      omega
+  · intro j hj
+    obtain ⟨hm, hmax, hfirst⟩ := pickMax_some ts _ (whereIdx2_sorted _ _ _) j hj
+    obtain ⟨h1, h2⟩ := (mem_whereIdx2 _ _ _ _).mp hm
+    refine ⟨h1, of_decide_eq_true h2, ?_, ?_⟩
+    · intro i hi hle
+      exact hmax i ((mem_whereIdx2 _ _ _ _).mpr ⟨hi, decide_eq_true hle⟩)
+    · intro i hij hle
+      exact hfirst i ((mem_whereIdx2 _ _ _ _).mpr ⟨by omega, decide_eq_true hle⟩) hij
+
+/-- element-wise `mode='after'` (mask `tq[i] ≤ ts[i]`): empty iff no position qualifies; otherwise a
+qualifying position holding the earliest qualifying time, and the first such position -/
+theorem after2_spec (ts tq : List Int) :
+    (indexAfter2 ts tq = none ↔ ∀ i, i < ts.length → ts.getD i 0 < tq.getD i 0) ∧
+    (∀ j, indexAfter2 ts tq = some j →
+      j < ts.length ∧ tq.getD j 0 ≤ ts.getD j 0 ∧
+      (∀ i, i < ts.length → tq.getD i 0 ≤ ts.getD i 0 → ts.getD j 0 ≤ ts.getD i 0) ∧
+      (∀ i, i < j → tq.getD i 0 ≤ ts.getD i 0 → ts.getD j 0 < ts.getD i 0)) := by
+  unfold indexAfter2
+  constructor
+  · rw [pickMin_none, List.eq_nil_iff_forall_not_mem]
+    constructor
+    · intro h i hi
+      by_contra hc
+      exact h i ((mem_whereIdx2 _ _ _ _).mpr ⟨hi, decide_eq_true (by omega)⟩)
+    · intro h i hi
+      obtain ⟨h1, h2⟩ := (mem_whereIdx2 _ _ _ _).mp hi
+      have := h i h1
+      have h2' : tq.getD i 0 ≤ ts.getD i 0 := of_decide_eq_true h2
+      omega
+  · intro j hj
+    obtain ⟨hm, hmin, hfirst⟩ := pickMin_some ts _ (whereIdx2_sorted _ _ _) j hj
+    obtain ⟨h1, h2⟩ := (mem_whereIdx2 _ _ _ _).mp hm
+    refine ⟨h1, of_decide_eq_true h2, ?_, ?_⟩
+    · intro i hi hle
+      exact hmin i ((mem_whereIdx2 _ _ _ _).mpr ⟨hi, decide_eq_true hle⟩)
+    · intro i hij hle
+      exact hfirst i ((mem_whereIdx2 _ _ _ _).mpr ⟨by omega, decide_eq_true hle⟩) hij
+
+/-- a query array whose entries are all the same instant asks the scalar question -/
+theorem before2_const (ts : List Int) (t : Int) :
+    indexBefore2 ts (List.replicate ts.length t) = indexBefore ts t ∧
+    indexAfter2 ts (List.replicate ts.length t) = indexAfter ts t := by
+  have h : ∀ p : Int → Int → Bool, whereIdx2 p ts (List.replicate ts.length t) = whereIdx (fun x => p x t) ts := by
+    intro p
+    unfold whereIdx2 whereIdx
+    apply List.filter_congr
+    intro i hi
+    have hi' : i < ts.length := List.mem_range.mp hi
+    simp [List.getD_eq_getElem?_getD, hi']
+  simp only [indexBefore2, indexAfter2, indexBefore, indexAfter, h]
+  exact ⟨trivial, trivial⟩
+
+example : indexBefore2 [5, 1, 4, 4] [4, 0, 9, 4] = some 2 ∧ indexAfter2 [5, 1, 4] [6, 2, 5] = none := by decide
+
+/-- `TimeSeries[k]` for a NEGATIVE integer key `−n ≤ k < 0`: every row's value at position `n + k`
+(python's counting from the end) -/
+theorem series_getInt_negative (s : Series) (k : Int) (h1 : k < 0) (h2 : -(s.axis.n : Int) ≤ k) :
+    s.getInt k = .ok (s.data.map fun row => row.getD (k + s.axis.n).toNat 0) ∧ (k + s.axis.n).toNat < s.axis.n := by
+  have := (normKey_spec s.axis.n k).2.1 h1 h2
+  exact ⟨by simp [Series.getInt, this.1], this.2⟩
+
+/-- an integer key outside `[−n, n)` is refused (IndexError) by series and by event collections -/
+theorem getInt_refuses_outside (s : Series) (ev : Events) (k : Int) :
+    (k ≥ s.axis.n ∨ k < -(s.axis.n : Int) → s.getInt k = .error .indexError) ∧
+    (k ≥ ev.time.length ∨ k < -(ev.time.length : Int) → ev.getInt k = .error .indexError) := by
+  constructor
+  · intro h; simp [Series.getInt, (normKey_spec s.axis.n k).2.2 h]
+  · intro h; simp [Events.getInt, (normKey_spec ev.time.length k).2.2 h]
+
+/-- `Events[k]` for a negative integer key: the time and the entry of every data array at `n + k` -/
+theorem events_getInt_negative (ev : Events) (k : Int) (h1 : k < 0) (h2 : -(ev.time.length : Int) ≤ k) :
+    ev.getInt k = .ok ⟨[ev.time.getD (k + ev.time.length).toNat 0], ev.unit,
+      ev.data.map fun v => [v.getD (k + ev.time.length).toNat 0]⟩ ∧ (k + ev.time.length).toNat < ev.time.length := by
+  have := (normKey_spec ev.time.length k).2.1 h1 h2
+  exact ⟨by simp [Events.getInt, this.1, Events.select, sel], this.2⟩
+
+/-- a negative key and its non-negative twin select the same data -/
+theorem getInt_negative_twin (s : Series) (ev : Events) (k : Int) (h1 : k < 0) :
+    (-(s.axis.n : Int) ≤ k → s.getInt k = s.getInt (k + s.axis.n)) ∧
+    (-(ev.time.length : Int) ≤ k → ev.getInt k = ev.getInt (k + ev.time.length)) := by
+  constructor
+  · intro h2
+    rw [(series_getInt_negative s k h1 h2).1, series_getInt_positions s (k + s.axis.n) (by omega) (by omega)]
+  · intro h2
+    rw [(events_getInt_negative ev k h1 h2).1, events_getInt_positions ev (k + ev.time.length) (by omega) (by omega)]
+
+example : (Series.getInt ⟨⟨0, 1, 3, 3, .s⟩, [[7, 8, 9]]⟩ (-1)) = .ok [9] := by decide
+
 end Nitime.C03.Props
